@@ -159,7 +159,7 @@ Fit(t, prm) ==
 \* strftime specifiers: a few known to be valid, a few known to be invalid (a '%' at the end, %Q, %!);
 \* a format using anything else is rendered as "<date?>" (date or error marker, never a panic)
 KnownGood == {"Y", "m", "d", "H", "M", "S", "+", "%", "Z", "z", "a", "b", "e", "j", "y"}
-KnownBad == {"Q", "!"}
+KnownBad == {"Q", "!", "#"}    \* "%#z" is parse-only in chrono: it cannot be formatted
 RECURSIVE BadStrftime(_, _), GoodStrftime(_, _)
 BadStrftime(f, i) == IF i > Len(f) THEN FALSE
                      ELSE IF f[i] = "%" THEN (i = Len(f) \/ f[i + 1] \in KnownBad \/ BadStrftime(f, i + 2))
